@@ -120,8 +120,9 @@ class Shadow:
         """What the adapter's _bind_implicit wants to see of the model's pre-state."""
         return {'maps': self.mp, 'layers': self.ly}
 
-    def can_set(self, m, p, node, stale):
-        """The generated domain of SetItem (see the comment in Resources.tla)."""
+    def can_set(self, m, p, node, stale, pool=True):
+        """The generated domain of SetItem (see the comment in Resources.tla); pool=False: ids for implicit maps
+        never run out (the caller sizes the pool afterwards)."""
         root = self.order[0]
         if node == root or node == m:
             return False
@@ -136,6 +137,8 @@ class Shadow:
             below = self.sub(node)
             if any(t[0] in below for t in stale):
                 return False
+        if not pool:
+            return True
         # maps the walk has to create: the part of the key after the longest existing prefix
         cur, need = m, 0
         for i, k in enumerate(p[:-1]):
